@@ -292,7 +292,15 @@ def run(ctx):
     ctx.corpus(fn)
     ctx.note("EXCLUDE_R12", bool(EXCLUDE_R12))
     ctx.note("EXCLUDE_R14B", bool(EXCLUDE_R14B))
-    ctx.given(cases(), fn, quick=240, thorough=9000)
+    # catalogue: every structure of the test-suite in three fixed supercells, atoms in construction order, no shift, no noise
+    cat = []
+    for r in cs.catalogue():
+        d = len(r["lattice"])
+        for M3 in ([[2, 0, 0], [0, 1, 0], [0, 0, 1]], [[1, 1, 0], [-1, 1, 0], [0, 0, 1]], [[2, 1, 0], [0, 2, 0], [0, 0, 1]]):
+            cat.append({"recipe": {"name": r["name"], "lattice": r["lattice"], "basis": r["basis"]}, "M": [row[:d] for row in M3[:d]],
+                        "order": [0] * NKEYS, "shift": [0.] * d, "noise": [0] * NKEYS})
+    ctx.cases([c for i, c in enumerate(cat) if ctx.mine(i)], fn, label="catalogue")
+    ctx.given(cases(), fn, quick=200, thorough=9000)
 
 
 def replay(case):
